@@ -31,6 +31,7 @@ def parseOp (objs : Array Obj) (j : Json) : Except String Op := do
   | "getattr" => do .ok (.getattr (← getStr j "name"))
   | "delattr" => do .ok (.delattr (← getStr j "name"))
   | "elaborate" => .ok .elaborate
+  | "steal" => do .ok (.steal (← parseVal objs (← j.getObjVal? "v")) (← getStr j "key"))
   | _ => .error s!"bad op {op}"
 
 def optObj : Option Obj → Json
